@@ -101,7 +101,9 @@ fn head_case(rng: &mut Rng, all_prefixes: bool, redirect_focus: bool, rec: &mut 
     let hlen = head.len();
     let mut stream = head.clone();
     stream.extend_from_slice(&random_tail(rng));
-    let method = *rng.pick(&["GET", "HEAD", "GET", "DELETE"]);
+    // (CONNECT and OPTIONS too: what the head says is handed out whatever the client later makes of its fields)
+    let method = *rng.pick(&["GET", "HEAD", "GET", "DELETE", "CONNECT", "OPTIONS"]);
+    rec.cov(&format!("method/{}/{}xx", method, truth.status / 100));
     rec.ev(|| format!("head ({} bytes, {} fields, status {}): {:?}", hlen, nf, truth.status, esc_short(&head, 400)));
     let bounds = head_boundaries(&truth);
     let mut prefixes = prefix_set(rng, hlen, &bounds, all_prefixes);
@@ -150,6 +152,12 @@ fn head_case(rng: &mut Rng, all_prefixes: bool, redirect_focus: bool, rec: &mut 
         };
         if p >= decided_at.min(hlen) {
             rec.cov(&format!("route/{}", route.name()));
+        }
+        if !(300..400).contains(&truth.status) && (pi + hlen) % 4 == 1 {
+            // the head is no redirect: with the opt-in for truncated redirect heads switched on, every prefix must
+            // still be answered the same way
+            f.allow_partial_redirect(true);
+            rec.cov("opt-in-on/non-redirect-prefix");
         }
         rec.call();
         hookmon::arm(4 * p as u64 + 64);
@@ -402,7 +410,7 @@ impl Property for P {
     fn assumptions(&self) -> Vec<String> {
         vec![
             "status line always has the SP before the (possibly empty) reason phrase".into(),
-            "the harness never calls allow_partial_redirect(): the default path is what C05 quantifies over".into(),
+            "allow_partial_redirect(true) is only ever called where it must not matter (heads that are not 3xx); what it accepts of a truncated 3xx head is documented opt-in behaviour and not judged here".into(),
         ]
     }
     fn workloads(&self, tier: Tier) -> Vec<Workload> {
@@ -441,6 +449,8 @@ impl Property for P {
             v.push((format!("complete-route/{}", r), 100));
         }
         v.push(("near-end-window/complete".into(), 1000));
+        v.push(("opt-in-on/non-redirect-prefix".into(), 1000));
+        v.push(("method/CONNECT/2xx".into(), 20));
         v
     }
 }
